@@ -183,12 +183,8 @@ func (e *TermEnv) term(v ssa.Value) *T {
 		return &T{K: "addrfield", Name: fieldName(x.X.Type(), x.Field), Args: []*T{e.Term(x.X)}}
 	case *ssa.Field:
 		// a field of a copy of a local struct with write-once fields
-		if ld, ok := e.Val(x.X).(*ssa.UnOp); ok && ld.Op == token.MUL {
-			if al, ok := e.Val(ld.X).(*ssa.Alloc); ok {
-				if v := fieldInitOf(al, x.Field); v != nil {
-					return e.Term(v)
-				}
-			}
+		if v := e.fieldOfStructValue(x.X, x.Field, 0); v != nil {
+			return e.Term(v)
 		}
 		return &T{K: "field", Name: fieldName(x.X.Type(), x.Field), Args: []*T{e.Term(x.X)}}
 	case *ssa.IndexAddr:
@@ -221,6 +217,9 @@ func (e *TermEnv) term(v ssa.Value) *T {
 						if v := fieldInitOf(src, fa.Field); v != nil {
 							return e.Term(v)
 						}
+					}
+					if v := e.fieldOfStructValue(&ssa.UnOp{Op: token.MUL, X: al}, fa.Field, 0); v != nil {
+						return e.Term(v)
 					}
 				}
 			}
@@ -741,6 +740,74 @@ func fieldInitOf(al *ssa.Alloc, field int) ssa.Value {
 		}
 	}
 	return mine
+}
+
+// fieldOfStructValue: the value of field #field of the struct value v when it can be traced to the initialisation of
+// a local struct with write-once fields: a load of such a local, a copy of it, or the result of a module function
+// that returns one it built (its parameters are bound to the call's arguments in the environment).
+func (e *TermEnv) fieldOfStructValue(v ssa.Value, field int, depth int) ssa.Value {
+	if depth > 5 {
+		return nil
+	}
+	v = e.Val(v)
+	switch x := v.(type) {
+	case *ssa.UnOp:
+		if x.Op != token.MUL {
+			return nil
+		}
+		al, ok := e.Val(x.X).(*ssa.Alloc)
+		if !ok {
+			return nil
+		}
+		if r := fieldInitOf(al, field); r != nil {
+			return r
+		}
+		// the local received a whole struct once
+		var whole *ssa.Store
+		if al.Referrers() != nil {
+			for _, r := range *al.Referrers() {
+				if st, ok := r.(*ssa.Store); ok && st.Addr == ssa.Value(al) {
+					if whole != nil {
+						return nil
+					}
+					whole = st
+				}
+				if fa, ok := r.(*ssa.FieldAddr); ok && fa.Referrers() != nil {
+					for _, rr := range *fa.Referrers() {
+						if st, ok := rr.(*ssa.Store); ok && st.Addr == ssa.Value(fa) {
+							return nil
+						}
+					}
+				}
+			}
+		}
+		if whole == nil {
+			return nil
+		}
+		return e.fieldOfStructValue(whole.Val, field, depth+1)
+	case *ssa.Call:
+		sc := x.Call.StaticCallee()
+		if sc == nil || !inScope(pkgPathOf(sc)) || len(sc.Blocks) == 0 || sc.Signature.Results().Len() != 1 {
+			return nil
+		}
+		r := singleResult(sc, 0)
+		if r == nil {
+			return nil
+		}
+		if e.Sub == nil {
+			e.Sub = map[ssa.Value]ssa.Value{}
+		}
+		for i, p := range sc.Params {
+			if i < len(x.Call.Args) {
+				if old, dup := e.Sub[p]; dup && old != x.Call.Args[i] {
+					return nil // the same constructor called twice with different arguments on this path
+				}
+				e.Sub[p] = x.Call.Args[i]
+			}
+		}
+		return e.fieldOfStructValue(r, field, depth+1)
+	}
+	return nil
 }
 
 // structCopyOf: al is a local that receives, in one store of the whole struct, a copy of another local struct
